@@ -307,7 +307,20 @@ def r9_a_line_that_was_read_stays_intact(ctx):
     r5_promotion_complete(ctx)
 
 
-RULES = [("C17-R1", r1_no_discarded_overread), ("C17-R2", r2_terminator_and_eof), ("C17-R3", r3_each_byte_once_and_unchanged), ("C17-R4", r4_reads_are_never_pruned), ("C17-R5", r5_no_stdin_lock_while_the_program_runs), ("C17-R6", r6_lossy_decoding_drops_nothing), ("C17-R7", r7_reads_in_one_expression_arrive_in_source_order), ("C17-R8", r8_children_take_input_only_when_told), ("C17-R9", r9_a_line_that_was_read_stays_intact)]
+def r10_no_read_is_lost_to_the_front_end(ctx):
+    """Two ways a read_line call can vanish or be fed the wrong text before the program even runs: (a) the control-flow graph
+    the pruner works on calls the statements after an `if` unreachable - they are removed without any look at their effects,
+    a `make value get read_line("")` included (shared with C03-R5 / R5c: loop and if shapes of the graph); (b) a script piped
+    into `naija -` is cut at the first short read, and the rest of its text is what read_line then returns (shared with
+    C14-R2: the stdin route reads to the end and validates once)."""
+    from .c03 import r5_loop_cfg_shape, r5c_if_branches_flow_into_the_join_from_their_ends
+    from .c14 import r2_same_wiring
+    r5_loop_cfg_shape(ctx)
+    r5c_if_branches_flow_into_the_join_from_their_ends(ctx)
+    r2_same_wiring(ctx)
+
+
+RULES = [("C17-R1", r1_no_discarded_overread), ("C17-R2", r2_terminator_and_eof), ("C17-R3", r3_each_byte_once_and_unchanged), ("C17-R4", r4_reads_are_never_pruned), ("C17-R5", r5_no_stdin_lock_while_the_program_runs), ("C17-R6", r6_lossy_decoding_drops_nothing), ("C17-R7", r7_reads_in_one_expression_arrive_in_source_order), ("C17-R8", r8_children_take_input_only_when_told), ("C17-R9", r9_a_line_that_was_read_stays_intact), ("C17-R10", r10_no_read_is_lost_to_the_front_end)]
 
 EXPLANATION = (
     "R1: in the host implementation of Stdin::read_line (resolved through the sys::stdin alias from GlobalBuiltin::read_line) "
